@@ -101,6 +101,7 @@ def run_check(tier: str, seed: int, runs: int | None = None, parallel: int | Non
 
         exit_code = EXIT_OK
         seen = set()
+        unreproduced = []
         for i, v in found:
             key = v["key"]
             if jdump(key) in seen:
@@ -115,12 +116,16 @@ def run_check(tier: str, seed: int, runs: int | None = None, parallel: int | Non
             case = {k: v.get(k) for k in ("date", "cols", "faults", "form", "kind", "variant") if v.get(k) is not None}
             confirms = [engine.cold("sim.c20", "replay_case", case, hashseed=engine.slots[i % len(engine.slots)].S.hashseed)["violated"] for _ in range(3)]
             if not all(confirms):
-                raise HarnessError(f"C20 violation of run {i} does not replay in cold interpreters: {confirms} {key}")
+                unreproduced.append(f"run {i} {key}: {confirms}")
+                continue
             tag = f"{i}-{len(viol_lines)}"
             path = write_replay(PROP, seed, tag, {"hashseed": engine.slots[i % len(engine.slots)].S.hashseed, "case": case, "violation_key": key, "info": v.get("info"), "replay_cmd": f"./check replay replays/{PROP}-{seed}-{tag}.json"})
             viol_lines.append(f"VIOLATION property={PROP} replay={path}")
             log(f"  violation: {jdump(key)} faults={jdump(case.get('faults'))[:300]} info={v.get('info')}")
             exit_code = EXIT_VIOLATION
+        from sim.c01_driver import _unreproduced_verdict
+
+        _unreproduced_verdict(unreproduced, viol_lines)
     finally:
         engine.close()
 
